@@ -40,7 +40,13 @@ IndexOf(s, name) == IF \E i \in DOMAIN s : s[i].name = name THEN CHOOSE i \in DO
 TraceInit ==
     /\ l = 1 /\ k = 1 /\ cur = 0
     /\ Init0(SuiteOf(1), FilterOf(1))
-    /\ TLCSet(1, 1) /\ TLCSet(2, 1)
+    /\ TLCSet(1, 1) /\ TLCSet(3, 0)
+
+NextRun ==
+    /\ l' = l + 1 /\ k' = 1 /\ cur' = 0
+    /\ suite' = SuiteOf(l + 1) /\ filter' = FilterOf(l + 1)
+    /\ world' = Deploy /\ inflight' = NoFn /\ results' = NoFn
+    /\ TLCSet(1, l + 1)
 
 \* the k-th reported result names a test: it is started on its own copy of the deployment state
 TrStart ==
@@ -59,29 +65,24 @@ EventAgrees(ev, t, r) ==
     /\ ev.cond = t.exp
     /\ (t.exp = "should_revert_code") => ev.condcode = CodeBytes(t.expcode)
 
+\* the specification's own result of the test in flight
+ModelResult(i) == [res |-> RunAlone(suite[i]), passed |-> Passed(suite[i], RunAlone(suite[i]))]
+
 \* ... and finished: what was reported must be the model's result
 TrFinish ==
     /\ l <= Len(Rec) /\ cur # 0
     /\ Finish(cur)
     \* the specification's result for this test is the test alone on the deployment state, reported exactly
-    /\ results'[cur].res = RunAlone(suite[cur])
-    /\ results'[cur].passed = Passed(suite[cur], RunAlone(suite[cur]))
+    /\ results'[cur] = ModelResult(cur)
     /\ (suite[cur].beh = "read") => results'[cur].res.logs = <<Deploy[suite[cur].key]>>
     /\ EventAgrees(Rec[l].results[k], suite[cur], results'[cur])
     /\ cur' = 0 /\ k' = k + 1 /\ l' = l
-    /\ TLCSet(2, k + 1)
 
 \* end of the run: exactly the selected tests were reported
 TrEndRun ==
     /\ l <= Len(Rec) /\ cur = 0 /\ k > Len(Rec[l].results)
     /\ AllDone
-    /\ l' = l + 1 /\ k' = 1 /\ cur' = 0
-    /\ suite' = SuiteOf(l + 1) /\ filter' = FilterOf(l + 1)
-    /\ world' = Deploy /\ inflight' = NoFn /\ results' = NoFn
-    /\ TLCSet(1, l + 1) /\ TLCSet(2, 1)
-
-TraceNext == TrStart \/ TrFinish \/ TrEndRun
-TraceSpec == TraceInit /\ [][TraceNext]_tvars
+    /\ NextRun
 
 Expected(i, j) ==
     LET r == Rec[i] IN
@@ -94,7 +95,38 @@ Expected(i, j) ==
                       codeb |-> IF res.out = "revert" THEN CodeBytes(res.code) ELSE <<>>,
                       logs |-> [y \in DOMAIN res.logs |-> BE8(res.logs[y])], passed |-> Passed(t, res)])
 
+\* A reported result that is not the specification's is printed (REJECTED: run, result, id, expectation) and
+\* skipped, so that one TLC run decides every result of the trace.
+Reject(i, j) ==
+    /\ PrintT(<<"REJECTED", i, j, Rec[i].id, Expected(i, j)>>)
+    /\ TLCSet(3, TLCGet(3) + 1)
+
+\* the result names no test of the suite, an unselected test, or a test already reported
+TrRejectStart ==
+    /\ l <= Len(Rec) /\ cur = 0 /\ k <= Len(Rec[l].results)
+    /\ LET i == IndexOf(suite, Rec[l].results[k].test) IN
+          i = 0 \/ ~Selected(suite[i], filter) \/ i \in DOMAIN results
+    /\ Reject(l, k)
+    /\ k' = k + 1
+    /\ UNCHANGED <<suite, filter, world, inflight, results, l, cur>>
+\* the result differs from the specification's
+TrRejectFinish ==
+    /\ l <= Len(Rec) /\ cur # 0
+    /\ ~EventAgrees(Rec[l].results[k], suite[cur], ModelResult(cur))
+    /\ Finish(cur)
+    /\ Reject(l, k)
+    /\ cur' = 0 /\ k' = k + 1 /\ l' = l
+\* a selected test was not reported
+TrRejectEnd ==
+    /\ l <= Len(Rec) /\ cur = 0 /\ k > Len(Rec[l].results)
+    /\ ~AllDone
+    /\ Reject(l, k)
+    /\ NextRun
+
+TraceNext == TrStart \/ TrFinish \/ TrEndRun \/ TrRejectStart \/ TrRejectFinish \/ TrRejectEnd
+TraceSpec == TraceInit /\ [][TraceNext]_tvars
+
 Accepted ==
-    IF TLCGet(1) = Len(Rec) + 1 THEN TRUE
-    ELSE Print(<<"FIRST-UNMATCHED", TLCGet(1), TLCGet(2), Rec[TLCGet(1)].id, Expected(TLCGet(1), TLCGet(2))>>, FALSE)
+    IF TLCGet(1) = Len(Rec) + 1 /\ TLCGet(3) = 0 THEN TRUE
+    ELSE Print(<<"NOT-ACCEPTED", "consumed", TLCGet(1) - 1, "of", Len(Rec), "rejected", TLCGet(3)>>, FALSE)
 =============================================================================
